@@ -50,6 +50,9 @@ def _is_new_class(cname: str) -> bool:
 _REFERENCE_CLASSES = {"PolyhedralSyntaxOperator", "PolyhedralSyntaxEqlExpression", "PolyhedralSyntaxIneqExpression", "IncompatibleArgsError", "ContractFormatError", "PolyhedralSyntaxException", "PolyhedralSyntaxConvexException", "FileDataFormatException"}
 
 
+_NEVER_NONE = {"list", "dict", "set", "tuple", "frozenset", "len", "str", "int", "float", "bool", "sorted", "zip", "enumerate", "range", "type", "repr", "abs", "sum", "reversed", "iter", "map", "filter", "isinstance", "format", "round"}
+
+
 def const(v) -> V:
     return ("const", v)
 
@@ -578,8 +581,8 @@ class _Run:
             if op in ("In", "NotIn") and is_const(l) and r[0] == "dict" and all(k_ is not None and is_const(k_) for k_, _v in r[1]):
                 res = l[1] in [k_[1] for k_, _v in r[1]]
                 return const(res if op == "In" else not res)
-            if op in ("Is", "IsNot") and is_const(r) and r[1] is None and l[0] in ("call", "list", "dict", "tuple", "set", "bin", "new"):
-                return const(op == "IsNot")
+            if op in ("Is", "IsNot") and is_const(r) and r[1] is None and (l[0] in ("list", "dict", "tuple", "set", "bin", "new", "listcomp", "dictcomp", "setcomp") or (l[0] == "call" and l[1] in _NEVER_NONE)):
+                return const(op == "IsNot")  # a display / a constructor / a builtin that never gives None
             return ("cmp", op, l, r)
         return v
 
